@@ -149,10 +149,18 @@ def run(ctx):
         raise AnalysisBroken("lookupRule: switch not found")
     cases = [c.get("cn", "").split("::")[-1] for c in sw[0].term["cases"] if isinstance(c, dict)]
     r.check(sorted(cases) == sorted(kinds), "lookupRule|all-kinds", "%d kinds" % len(kinds), "switch handles %s of %s" % (sorted(cases), sorted(kinds)), f)
-    rules = [n for n in f.nodes if n.get("k") == "construct" and (n.get("fn") or "").endswith("BuildSystemRule::BuildSystemRule") and len(n.get("args", [])) >= 4]
+    rules = [(n, n) for n in f.nodes if n.get("k") == "construct" and (n.get("fn") or "").endswith("BuildSystemRule::BuildSystemRule") and len(n.get("args", [])) >= 4]
+    # a rule may be built by a small file-static factory called from the case (`return makeMissingCommandRule(keyData);`): it counts at the call site
+    for c in f.calls():
+        h = prog.functions.get(c.get("fk")) if c.get("fk") else None
+        if h is None or h is f or h.is_lambda or relpath(h.file) != relpath(f.file) or h.cls:
+            continue
+        for n in h.nodes:
+            if n.get("k") == "construct" and (n.get("fn") or "").endswith("BuildSystemRule::BuildSystemRule") and len(n.get("args", [])) >= 4:
+                rules.append((n, c))
     seen = {}
-    for n in rules:
-        st = bf.at_node(n) or frozenset()
+    for n, site_node in rules:
+        st = bf.at_node(site_node) or frozenset()
         kind = [a.split("=")[-1].split("::")[-1] for a, p in st if a.startswith("switch:")]
         kind = kind[0] if kind else "?"
         a = arg_nodes(n)
@@ -203,7 +211,24 @@ def run(ctx):
     combs = g.calls("CommandSignature::combine")
     txt = [expr_plain(arg_nodes(c)[0]) for c in combs]
     r.check(any(t == "type" for t in txt), "BuildNode::getSignature|type-folded", "", "node type is not part of the node signature", g)
+    # one loop over all producers (range-for, or begin()..end() iterators over the same list), folding each name, never cut short
     loops = [n for n in g.nodes if n.get("k") == "forrange" and "getProducers()" in expr_str(n.child("range"))]
+    if not loops:
+        import re as _re
+        env = {v["n"]: expr_plain(g.nodes[v["init"]]) for d in g.nodes if d.get("k") == "decl" for v in d.get("vars", []) if "init" in v and v.get("n")}
+
+        def subst(t):
+            for _ in range(3):
+                for nm_, ini_ in env.items():
+                    t = _re.sub(r"\b%s\b" % _re.escape(nm_), ini_, t)
+            return t
+        for n in g.nodes:
+            if n.get("k") == "for" and "init" in n and "c" in n and "inc" in n:
+                its = [v["n"] for d in n.child("init").walk() if d.get("k") == "decl" for v in d.get("vars", []) if "init" in v and subst(expr_plain(g.nodes[v["init"]])).endswith("getProducers().begin()")]
+                cnd = subst(expr_plain(n.child("c")))
+                inc = expr_plain(n.child("inc")).strip("()").replace(" ", "")
+                if len(its) == 1 and "getProducers().end()" in cnd and ("!=" in cnd) and inc in ("++" + its[0], its[0] + "++"):
+                    loops.append(n)
     ok = len(loops) == 1 and any("getName()" in expr_str(c) for c in combs if any(x is c for x in loops[0].walk())) and \
         not any(x.get("k") in ("break", "return", "continue") for x in loops[0].child("body").walk())
     r.check(ok, "BuildNode::getSignature|every-producer-folded", "", "producer names are not all folded", g)
